@@ -280,7 +280,7 @@ func overlapPartner(s *MtScript, ts []*mtTunnel, si, ti int) (*mtTunnel, string)
 		return nil, ""
 	}
 	k := str(y.ps.S.Steps[y.next], "k", "")
-	if k == "hostsend" || k == "idle" || k == "ownerget" {
+	if k == "hostsend" || k == "idle" || k == "ownerget" || k == "reout" {
 		return nil, ""
 	}
 	return y, k
